@@ -23,6 +23,12 @@ type Merger struct {
 
 	less    func(a, b *sam.Record) bool
 	readers []*reader
+
+	// err is the first error other than io.EOF returned by
+	// a source Reader when merging by sort order. It is
+	// returned by Read after the remaining sources are
+	// exhausted.
+	err error
 }
 
 type reader struct {
@@ -104,6 +110,8 @@ func NewMerger(less func(a, b *sam.Record) bool, src ...*Reader) (*Merger, error
 		for _, r := range m.readers {
 			if r.head != nil {
 				live = append(live, r)
+			} else if r.err != io.EOF && m.err == nil {
+				m.err = r.err
 			}
 		}
 		m.readers = live
@@ -124,6 +132,9 @@ func (m *Merger) Header() *sam.Header {
 // The Read behaviour will depend on the underlying Readers.
 func (m *Merger) Read() (rec *sam.Record, err error) {
 	if len(m.readers) == 0 {
+		if m.err != nil {
+			return nil, m.err
+		}
 		return nil, io.EOF
 	}
 	if m.less == nil {
@@ -152,6 +163,8 @@ func (m *Merger) nextBySortOrder() (rec *sam.Record, err error) {
 	reader.head, reader.err = reader.r.Read()
 	if reader.err == nil {
 		m.push(reader)
+	} else if reader.err != io.EOF && m.err == nil {
+		m.err = reader.err
 	}
 	if rec == nil {
 		return m.Read()
